@@ -1,8 +1,9 @@
 """C04 — pointer representation conversion is faithful, null-preserving and per-sandbox."""
 from harness.props.ptrcommon import *
+from harness.props import c14
 PROP = "C04"
-COQ_FILES = ["Machine.v", "Ptr.v", "Ptr_proofs.v"]
-DRIVERS = drivers("CHAIN", ["xlate"], CFG_XL)
+COQ_FILES = ["Machine.v", "Ptr.v", "Ptr_proofs.v", "World.v", "World_proofs.v"]
+DRIVERS = drivers("CHAIN", ["xlate"], CFG_XL) + [dict(name="life_verif32", src="life.cpp", defines=["LIFE_VERIF"], ops=["life32"])]
 
 
 def gen_cases(tier, rng):
@@ -42,8 +43,8 @@ def gen_cases(tier, rng):
         for ex in (APP_BASE + 8, A - 1, A + size, 4096):
             cases.append("xlate%s noctx toapp 64 %d" % (cfg, ex))
             cases.append("xlate%s noctx tosbx %d %d" % (cfg, A + 64, ex))
-    return cases
-
+    # per-sandbox after any history: create/destroy histories over three sandbox objects with example-based translations in between
+    cases += c14.gen_life(tier, rng, translation_heavy=True)
     return cases
 
 
